@@ -4,6 +4,7 @@ import (
 	"encoding/json"
 	"fmt"
 	"io/ioutil"
+	"os"
 
 	"github.com/meshplus/bitxhub/verifharness/mc"
 )
@@ -18,6 +19,9 @@ var Registry = map[string]func(*mc.Ctx){
 var Replayers = map[string]func(c *mc.Ctx, replay map[string]interface{}){}
 
 func Worker(args []string) int {
+	if len(args) > 0 && args[0] == "shard" {
+		return mc.WorkerMain(args[1:])
+	}
 	if len(args) > 0 && args[0] == "c11open" {
 		return c11OpenWorker(args[1:])
 	}
@@ -63,3 +67,6 @@ func Replay(path string) int {
 	fmt.Println("replay: no violation")
 	return 0
 }
+
+func getenvTier() string  { return os.Getenv("VERIF_TIER_INTERNAL") }
+func setenvTier(t string) { _ = os.Setenv("VERIF_TIER_INTERNAL", t) }
